@@ -176,6 +176,12 @@ def judge(ctx, start, end, duration, hop, inc, ids=False):
     clip = _clip(start, end)
     spec = {"start": start, "end": end, "duration": duration, "hop": hop, "inc": inc}
     try:
+        if ctx.evaluations % 5 == 0:
+            # a caller that only wanted the first window (and never finishes the generator) must not
+            # influence a later, complete segmentation of the same clip
+            it = O.segment_clip(clip, duration, hop=hop, include_incomplete=inc)
+            next(it, None)
+            del it
         segs = list(O.segment_clip(clip, duration, hop=hop, include_incomplete=inc))
     except ValueError:
         return
